@@ -1,11 +1,11 @@
 package main
 
 import (
-	"strings"
 	"encoding/binary"
 	"fmt"
 	"math"
 	"sort"
+	"strings"
 
 	"github.com/tidwall/geojson/geometry"
 	"verif/mc/exact"
